@@ -93,6 +93,9 @@ type RuntimeOpts struct {
 	// ListFaults: the first N List calls the runtime and its controllers issue against the state fail with a
 	// transient error (fault injection at the state seam)
 	ListFaults int `json:"list_faults,omitempty"`
+	// BatchMs > 0: the state handed to the runtime coalesces the batches of aggregated watches over this window (any
+	// batching of an aggregated watch is legal; the in-memory state only ever produces some of them)
+	BatchMs int `json:"batch_ms,omitempty"`
 }
 
 var errListFault = errors.New("transient list failure (injected)")
@@ -184,6 +187,12 @@ func NewRuntimeWorldWrapped(variant string, h HistCfg, ro RuntimeOpts, wrap func
 		w.listFaultsLeft = ro.ListFaults
 		w.FaultMode = true
 		rtState = faultyState{State: w.St, left: &w.listFaultsLeft, out: w.FaultOut}
+	}
+	if ro.BatchMs > 0 {
+		rtState = batchingState{State: rtState, window: time.Duration(ro.BatchMs) * time.Millisecond}
+		if w.FaultOut != nil {
+			w.FaultOut.fault("watch:batches-coalesced(run)")
+		}
 	}
 	if wrap != nil {
 		rtState = wrap(rtState)
